@@ -511,6 +511,13 @@ def range_arg(p, i, e):
 
     if kind == "RangeFull":
         return "full range"
+    # `let (head, rest) = s.split_at(k); &rest[c..]` with k a found position in s: rest has at least one byte
+    b0 = strip_wrappers(e[3][0])
+    if kind == "RangeFrom" and b0[0] == "pl" and call_is(b0[1], "split_at") and fields_of(b0)[-1:] == ("1",):
+        c0 = strip_wrappers(ops[0])
+        o = search_origin(b0[1][3][1])
+        if c0[0] == "c" and isinstance(c0[2], int) and o is not None and same_slice(o[0], base_slice(b0[1][3][0])) and c0[2] <= 1 - o[1]:
+            return "tail of split_at at a found position: at least the found byte remains"
     if kind == "RangeFrom" and bound_ok(ops[0], False):
         return "range start found by a search over the same slice (<= len)"
     if kind == "RangeTo" and bound_ok(ops[0], True):
